@@ -209,3 +209,44 @@ Theorem C10_listed_incomplete_refuted :
   forallb fetch_ok (l_recs (lrun true disk_cfg (linit disk_cfg late_frames) late_sched)) = true.
 Proof. exact listed_incomplete_refuted. Qed.
 Print Assumptions C10_listed_incomplete_refuted.
+
+(* ---------------------------------------------------------------------------------------------------------
+   The disk store outlives the generator (Model/C10HlsDisk.v): files are named by the sequence number, the
+   numbers restart at 1 with every new generation of a stream, and the directory may hold anything an earlier
+   run under the same path left behind (closed: nothing; abandoned at any point: any of its files). *)
+From V Require Import C10HlsDisk C10HlsDiskProofs.
+
+(* for ANY directory content d0 and any operations of the current generation (ending wherever they end): the file of
+   every listed segment, and of the open one, holds exactly the transport stream of that segment's frames of THIS
+   generation — which is also what the memory store returns for it, in every later state *)
+Theorem C10_fetch_current_generation : forall (tsw : list wframe -> bytes) c d0 ops g,
+  forallb (fun o => negb (is_newgen o)) ops = true ->
+  let s := steps c (init c) ops in
+  In g (pl s ++ curl s) ->
+  disk_read tsw (apply_fevs tsw true d0 (fevs s)) (s_seq g) = Some (tsw (s_frames g)) /\
+  (In g (pl s) -> fetch c (s_seq g) s <> None ->
+   forall r, fetch (set_mem c) (s_seq g) s = Some r -> forall s', read_bytes tsw r s' = tsw (s_frames g)).
+Proof. exact fetch_current_generation. Qed.
+Print Assumptions C10_fetch_current_generation.
+
+(* the same after any number of earlier generations, each closed or abandoned where its operations end *)
+Theorem C10_fetch_after_generations : forall (tsw : list wframe -> bytes) c d0 gens ops g,
+  forallb (fun o => negb (is_newgen o)) ops = true ->
+  let s := steps c (init c) ops in
+  In g (pl s) ->
+  disk_read tsw (apply_fevs tsw true (gens_disk tsw true c d0 gens) (fevs s)) (s_seq g) = Some (tsw (s_frames g)).
+Proof. exact fetch_after_generations. Qed.
+Print Assumptions C10_fetch_after_generations.
+
+(* opening without truncating: the new generation's segment 1 is served with the tail of the longer file an
+   abandoned generation left; with truncation the same history is fine (non-vacuity of the theorem above) *)
+Theorem C10_no_truncate_refuted :
+  let c := disk_cfg_d in
+  let s := steps c (init c) new_gen in
+  exists g, In g (pl s) /\ s_seq g = 1 /\
+    disk_read toy_tsw (apply_fevs toy_tsw false (gens_disk toy_tsw false c [] [old_gen]) (fevs s)) 1
+      <> Some (toy_tsw (s_frames g)) /\
+    disk_read toy_tsw (apply_fevs toy_tsw true (gens_disk toy_tsw true c [] [old_gen]) (fevs s)) 1
+      = Some (toy_tsw (s_frames g)).
+Proof. exact no_truncate_refuted. Qed.
+Print Assumptions C10_no_truncate_refuted.
